@@ -7,9 +7,9 @@ CONSTANTS
   RawR = TRUE
   RawTotal = 0
   Tmos <- T1
-  MaxT = 2
+  MaxT = 1
   Spurious = TRUE
-  Interrupts = TRUE
+  Interrupts = FALSE
   Bug = "none"
 INVARIANTS ViewIsFunctionOfMoved StreamExact ReadWriteComplete RecvSendBounds NoHangPastTimeout WaitsOnlyForData
 CHECK_DEADLOCK FALSE
